@@ -143,15 +143,16 @@ func (r *peerRegistry) addStream(
 	peerID core.PeerID,
 	stream network.Stream,
 	cancel context.CancelFunc,
-) {
+) bool {
 	r.mu.Lock()
 	defer r.mu.Unlock()
 
 	if _, ok := r.streams[peerID]; !ok {
-		return
+		return false
 	}
 
 	r.streams[peerID][stream] = cancel
+	return true
 }
 
 func (r *peerRegistry) removeStream(peerID core.PeerID, stream network.Stream) {
